@@ -2012,6 +2012,9 @@ class Interp:
             import datetime as _dtm
             try:
                 return [(cfg, Const((_dtm.date if fname.endswith("date") else _dtm.datetime)(*[a.v for a in args])))]
+            except ValueError as err:  # 29 February of a year that has none, month 13, ...: the constructor raises
+                out.add("raise", cfg.set("$exc", ExcV("ValueError", f"{fname}: {err}")))
+                return []
             except Exception:  # noqa
                 return None
         if fname in ("min", "max") and args and all(isinstance(a, Const) for a in args) and not kwargs:
